@@ -407,6 +407,7 @@ def _executor_table(p, led, tier, ex, exe, wd, ms, pt, tv, DT, IL, dts, ils, ilv
         "fan-in (two sources for one port)": ({"A": ({}, {"o": T}), "B": ({}, {"o": T}), "C": ({"i": T}, {})}, [("A", "o", "C", "i"), ("B", "o", "C", "i")], {"A": "raw", "B": "raw", "C": "none"}, "raise-before-any"),
         "missing source": ({"A": ({}, {"o": T}), "C": ({"i": T, "j": T}, {})}, [("A", "o", "C", "i")], {"A": "raw", "C": "none"}, "raise-before-any"),
         "missing handler": ({"A": ({}, {"o": T}), "C": ({"i": T}, {})}, [("A", "o", "C", "i")], {"C": "none"}, "raise-before-any"),
+        "missing handler of a module whose declared output nobody consumes": ({"A": ({}, {"o": T}), "C": ({"i": T}, {"res": T})}, [("A", "o", "C", "i")], {"A": "raw"}, "raise-before-any"),
         "handler returns no outputs": ({"A": ({}, {"o": T}), "C": ({"i": T}, {})}, [("A", "o", "C", "i")], {"A": "none", "C": "none"}, "raise"),
     }
     for label, (mods, wires, handlers, want) in shapes.items():
